@@ -63,20 +63,19 @@ def discharge_one(job):
     name, smt2, opts = job
     res = {"name": name, "backend": None, "result": "unknown", "ms": 0, "model": None, "reason": ""}
     try:
-        r, dt, model, reason = _check_z3(smt2, opts.get("z3_ms", Z3_TIMEOUT_MS))
+        full = opts.get("z3_ms", Z3_TIMEOUT_MS)
+        first = min(full, opts.get("z3_first_ms", 4000))
+        r, dt, model, reason = _check_z3(smt2, first)
         res.update(result=r, ms=int(dt * 1000), backend="z3-" + z3.get_version_string(), model=model, reason=reason)
         if r == "unknown" and opts.get("cvc5", True) and "lambda" not in smt2:
             r2, dt2 = _check_cvc5(smt2, opts.get("cvc5_s", CVC5_TIMEOUT_S))
             res["ms"] += int(dt2 * 1000)
-            if r2 == "unsat":
-                res.update(result="unsat", backend="cvc5-1.0.3")
-            elif r2 == "sat":
-                res.update(result="sat", backend="cvc5-1.0.3")
-        if res["result"] == "unknown" and opts.get("retry", True):
-            r, dt, model, reason = _check_z3(smt2, 2 * opts.get("z3_ms", Z3_TIMEOUT_MS), seed=7)
+            if r2 in ("unsat", "sat"):
+                res.update(result=r2, backend="cvc5-1.0.3", model=None)
+        if res["result"] == "unknown" and full > first:
+            r, dt, model, reason = _check_z3(smt2, full, seed=7)
             res["ms"] += int(dt * 1000)
-            if r != "unknown":
-                res.update(result=r, backend="z3-" + z3.get_version_string() + "(retry seed 7)", model=model)
+            res.update(result=r, backend="z3-" + z3.get_version_string() + "(seed 7)", model=model, reason=reason)
     except Exception as e:  # solver crash: undecided, never a violation by itself
         res.update(result="error", reason=f"{type(e).__name__}: {e}")
     return res
